@@ -6,7 +6,7 @@ spec images of the window's integer points must be in the REAL result, drop resu
 keep the integer points, contains_integer_point agrees with the proved reference.
 Theorems: lean/PPLV/Props/C17.lean (generic algorithm of wrap_assign.hh sound for every abstract domain).
 """
-import collections, concurrent.futures as cf, hashlib, os
+import collections, concurrent.futures as cf, hashlib, os, shutil
 from fractions import Fraction
 
 LEVEL = "proof"
@@ -238,6 +238,54 @@ def run_lines(ctx, drv, h, wd, stdin_lines=None, harness_args=()):
     return lines, run_driver(ctx, drv, lines, wd), parse_ginfo(lines)
 
 
+def desc_unbounded(desc):
+    """does the argument described by a case description look unbounded?  (a generator system with a ray or
+    a line; a constraint system leaving some variable without a unary lower or upper bound)"""
+    d = desc.split()
+    try:
+        kind, n = d[0], int(d[2])
+        i = 3
+        if kind == "W":
+            nv = int(d[i]); i += 1 + nv + 3
+            g = d[i] == "1"; i += 1
+            if g:
+                _, i = take_cs(d, i, n)
+            i += 2
+        elif kind == "D":
+            hv = d[i] == "1"; i += 1
+            if hv:
+                i += 1 + int(d[i])
+            i += 1
+        nd = int(d[i]); i += 1
+        for _ in range(nd):
+            mode = d[i]; i += 1
+            if mode == "g":
+                m = int(d[i]); i += 1
+                for _ in range(m):
+                    if d[i] in ("r", "l"):
+                        return True
+                    i += 2 + n
+            else:
+                cs, i = take_cs(d, i, n)
+                _, i = take_cgs(d, i, n)
+                lo, hi = unary_bounds(cs, n)
+                if any(lo[x] is None or hi[x] is None for x in range(n)):
+                    return True
+    except (ValueError, IndexError):
+        return False
+    return False
+
+
+def crash_record(desc, sig):
+    d = desc.split()
+    site, tags = "crash", []
+    if len(d) > 2 and d[0] == "Q" and d[1] in POLY:
+        site = "Polyhedron::contains_integer_point"
+        if sig.split()[0] in ("SIGXCPU", "SIGKILL") and desc_unbounded(desc):
+            tags.append("no_answer_within_cpu_limit_unbounded_set")
+    return {"site": site, "tags": tags}
+
+
 def crashes(lines):
     """(description, signal) of every operation during which the library died"""
     out, last = [], None
@@ -252,31 +300,49 @@ def crashes(lines):
     return out
 
 
+def replay(ctx, path):
+    """bin/check C17 --replay replays/C17-….json : run the recorded case description on the real library of
+    the current tree and judge it again; 1 = it still fails (and is not an open known finding)."""
+    import json
+    ctx.ensure_ppl()
+    drv = ctx.ensure_pplv("pplv_wrap")
+    h = ctx.compile_harness("c17_wrap.cc")
+    wd = ctx.workdir()
+    obj = json.load(open(path))
+    print("property=C17 what=%s" % str(obj.get("what", "-"))[:300])
+    desc = obj.get("description")
+    if not desc:
+        print("the replay carries no case description (a broken proof obligation has none)")
+        return 0
+    lines, verd, ginfo = run_lines(ctx, drv, h, wd, stdin_lines=[desc])
+    rc = 0
+    for l in lines:
+        if l.startswith(("wrap ", "drop ", "cip ", "trace ")):
+            t = l.split(None, 2)
+            v = verd.get(t[1], ("skip", "no verdict"))
+            print("  %s -> %s %s" % (l[:300], v[0], v[1][:400]), flush=True)
+            if v[0] == "MISMATCH" and report(ctx, Case(l), v[1], ginfo):
+                rc = 1
+            if v[0] == "DIVERGE":
+                print("VIOLATION property=C17 replay=%s no-failing-input-found" % path)
+                rc = 1
+    for d, sig, _ in crashes(lines):
+        print("  the library died (%s) during: %s" % (sig, d[:300]))
+        if ctx.violation("the library died (%s) during: %s" % (sig, d[:300]), {"description": d, "crash": sig},
+                         found_input=True, record=crash_record(d, sig)):
+            rc = 1
+    if rc == 0:
+        print("replay: no (new) violation on this tree")
+    shutil.rmtree(wd, ignore_errors=True)
+    return rc
+
+
 def run(ctx):
     ctx.ensure_ppl()
     broken = ctx.prove(["PPLV.Props.C17"])
     drv = ctx.ensure_pplv("pplv_wrap")
     h = ctx.compile_harness("c17_wrap.cc")
     wd = ctx.workdir()
-
-    if ctx.replay:
-        import json
-        obj = json.load(open(ctx.replay))
-        lines, verd, ginfo = run_lines(ctx, drv, h, wd, stdin_lines=[obj["description"]])
-        n_bad = 0
-        for l in lines:
-            if l.startswith(("wrap ", "drop ", "cip ")):
-                c = Case(l)
-                v = verd.get(c.id, ("skip", "no verdict"))
-                print("replay: %s %s" % (v[0], v[1][:300]), flush=True)
-                if v[0] == "MISMATCH":
-                    n_bad += 1
-                    report(ctx, c, v[1], ginfo)
-        for desc, sig, _ in crashes(lines):
-            ctx.violation("the library died (%s) during: %s" % (sig, desc[:300]), {"description": desc, "crash": sig},
-                          found_input=True, record={"site": "crash", "tags": []})
-        ctx.cov.update(evaluations=len(verd), distinct_nontrivial=len(verd), rule="replay of one case", samples=[obj.get("description")])
-        return
 
     quick = ctx.tier == "quick"
     nb, per = (14, 190) if quick else (56, 1200)
@@ -322,6 +388,15 @@ def run(ctx):
                 st["points"] += int(kv.get("pts", 0))
         if v[0] == "MISMATCH":
             report(ctx, c, v[1], ginfo)
+        if c.kind == "wrap" and " iv=" in " " + v[1]:
+            iv = v[1].split("iv=")[1].split()[0]
+            st["interval_model_" + iv] += 1
+            if iv == "none":
+                ctx.violation("the model boxWrap/ivWrap is no longer the transliteration of Box::wrap_assign / Interval::wrap_assign "
+                              "(it does not explain the real result)", {"description": c.desc, "journal_line": c.line}, found_input=False,
+                              record={"site": "interval-model", "tags": []})
+            elif iv == "prefix":
+                ctx.notes.append("Interval::wrap_assign behaves like the comparison before the fix of defect 12 on: " + c.desc[:200])
         if v[0] == "skip" and "exception" in v[1]:
             hist["exceptions"][c.exc or v[1]] += 1
         if key not in distinct:
@@ -341,7 +416,7 @@ def run(ctx):
                     samples.append(c.desc[:400])
     for desc, sig, cid in crashes(lines):
         ctx.violation("the library died (%s) during: %s" % (sig, desc[:300]), {"description": desc, "crash": sig},
-                      found_input=True, record={"site": "crash", "tags": []})
+                      found_input=True, record=crash_record(desc, sig))
         st["crash"] += 1
 
     # the model against the real template: symbolic traces of Implementation::wrap_assign<Trace_PSET>
@@ -386,7 +461,8 @@ def run(ctx):
              "the planted degenerate witnesses (ids p*) are counted separately",
         planted_degenerate=len(planted), samples=samples, counts=dict(st),
         histograms={k: dict(v) for k, v in hist.items()},
-        traces_validated_against_impl=st["trace_written"] + st["trace_repaired"],
+        traces_validated_against_impl=st["trace_written"] + st["trace_repaired"] + st["interval_model_written"],
+        box_model_matching_real_result=st["interval_model_written"], box_model_matching_only_pre_fix_comparison=st["interval_model_prefix"],
         traces_matching_model_as_written=st["trace_written"], traces_matching_repaired_model_only=st["trace_repaired"],
         notes=ctx.notes)
     ctx.assumptions += [
@@ -397,3 +473,5 @@ def run(ctx):
         "take any in-range integer (a sample of them is checked)",
         "Grid frequencies reported by the library are used only to classify (tag) a failure already established by the Lean judge",
     ]
+    if not ctx.violations:
+        shutil.rmtree(wd, ignore_errors=True)   # the journal is reproducible from the seed
